@@ -44,6 +44,17 @@ def _maxval_precision(bound: RealFloat, exp: int) -> int:
     return bound.c.bit_length()
 
 
+def _bound_product(a: RealFloat | float, b: RealFloat | float) -> RealFloat | float:
+    """The product of two bounds, where one may be unbounded (a `float`
+    infinity) and the other zero: the finite values a bound of zero admits
+    are all zero, so the product is zero rather than the `inf * 0` NaN."""
+    if isinstance(a, RealFloat) and a.is_zero() and isinstance(b, float):
+        return RealFloat.from_int(0)
+    if isinstance(b, RealFloat) and b.is_zero() and isinstance(a, float):
+        return RealFloat.from_int(0)
+    return a * b
+
+
 @default_repr
 class AbstractFormat:
     """
@@ -307,8 +318,14 @@ class AbstractFormat:
         # two like-sign corners give the maximum and the two cross corners the
         # minimum -- `max` on the latter would claim the *tighter* of the two
         # and miss the product it names: `[-1,1] * [-2,1]` reaches -2
-        pos_bound = max(self.pos_bound * other.pos_bound, self.neg_bound * other.neg_bound)
-        neg_bound = min(self.pos_bound * other.neg_bound, self.neg_bound * other.pos_bound)
+        pos_bound = max(
+            _bound_product(self.pos_bound, other.pos_bound),
+            _bound_product(self.neg_bound, other.neg_bound),
+        )
+        neg_bound = min(
+            _bound_product(self.pos_bound, other.neg_bound),
+            _bound_product(self.neg_bound, other.pos_bound),
+        )
 
         # special values: 0 is representable everywhere, so `inf * 0 = NaN` is
         # reachable whenever either operand has an infinity -- the NaN result is
